@@ -1,5 +1,5 @@
 """Builds known_findings.json (the committed list the checks read) from findings.d/*.json fragments."""
-import glob, json
+import glob, json, os
 out = {"_comment": "Genuine defects of sqlfluff found by the checks on the unchanged tree. Committed; never written at run time. "
        "status=open: failures whose signature matches are counted, not raised; the pinned reproducer prints a KNOWN-FINDING line while it still fails. "
        "status=fixed: repaired by the named fix: commit in /repo; suppresses nothing, the reproducer is an ordinary regression case.",
@@ -14,5 +14,7 @@ for f in sorted(glob.glob("/verif/findings.d/*.json")):
         out["findings"].append(e)
         if e["status"] == "fixed":
             out["fixed"].append(e.get("fixed_line") or "fixed: property=%s %s %s" % (e["properties"][0], e.get("commit", "?"), e["what"]))
-json.dump(out, open("/verif/known_findings.json", "w"), indent=1)
+tmp = "/verif/known_findings.json.tmp%d" % os.getpid()
+json.dump(out, open(tmp, "w"), indent=1)
+os.replace(tmp, "/verif/known_findings.json")
 print("known findings:", len(out["findings"]), "fixed:", len(out["fixed"]))
